@@ -22,7 +22,7 @@ type c11Callee struct {
 
 func (c *c11Callee) Parse(lex *lexer.PeekingLexer) error {
 	t := lex.Peek()
-	if t.EOF() || t.Value == ";" || t.Value == "(" || t.Value == ")" || t.Value == "!" {
+	if t.EOF() || t.Value == ";" || t.Value == "(" || t.Value == ")" || t.Value == "!" || t.Value == "=" {
 		return participle.NextMatch
 	}
 	c.Name = lex.Next().Value
@@ -61,6 +61,7 @@ type c11Stmt struct {
 	Tokens []lexer.Token  `parser:"" json:"-"`
 
 	Target *c11Callee `@@`
+	Val    string     `( "=" @Ident )?` // an ordinary capture after the hand-written production
 }
 
 type c11Prog struct {
@@ -75,7 +76,7 @@ type c11Prog struct {
 var c11PLex = lexer.MustSimple([]lexer.SimpleRule{
 	{Name: "Comment", Pattern: `#[^\n]*`},
 	{Name: "Ident", Pattern: `[a-zé]+`},
-	{Name: "Punct", Pattern: `[;()!]`},
+	{Name: "Punct", Pattern: `[;()!=]`},
 	{Name: "Whitespace", Pattern: `\s+`},
 })
 
@@ -107,6 +108,10 @@ func c11Parseable(c *mon.Child) {
 			if call {
 				sb.WriteString(sp() + "(")
 				sb.WriteString(sp() + ")")
+				e.end = sb.Len()
+			}
+			if r.Intn(3) == 0 {
+				sb.WriteString(sp() + "=" + sp() + r.Pick("v", "é"))
 				e.end = sb.Len()
 			}
 			want = append(want, e)
@@ -189,6 +194,135 @@ func c11Parseable(c *mon.Child) {
 			c.Nontrivial("cp:" + in)
 			c.Feature("programs_with_checkpoint_backoff_checked")
 		}
+		c.End(key)
+	}
+}
+
+// A production parsed by a ParseTypeWith function that ends by consuming an
+// ELIDED token explicitly (a value's trailing comment, found with PeekAny and
+// taken with FastForward): the enclosing node's run and EndPos include it.
+type c11Note interface{ isC11Note() }
+type c11NoteV struct {
+	Word    string
+	Comment string
+}
+
+func (c11NoteV) isC11Note() {}
+
+type c11NoteStmt struct {
+	Pos    lexer.Position
+	EndPos lexer.Position
+	Tokens []lexer.Token
+
+	N c11Note `@@`
+}
+
+type c11NoteProg struct {
+	Pos    lexer.Position
+	EndPos lexer.Position
+	Tokens []lexer.Token
+
+	Notes []*c11NoteStmt `@@*`
+}
+
+var c11NLex = lexer.MustSimple([]lexer.SimpleRule{
+	{Name: "Comment", Pattern: `#[^\n]*`},
+	{Name: "Ident", Pattern: `[a-zé]+`},
+	{Name: "At", Pattern: `@`},
+	{Name: "Whitespace", Pattern: `\s+`},
+})
+
+func c11CustomNotes(c *mon.Child) {
+	commentType := c11NLex.Symbols()["Comment"]
+	parseNote := func(lex *lexer.PeekingLexer) (c11Note, error) {
+		if lex.Peek().Value != "@" {
+			return nil, participle.NextMatch
+		}
+		lex.Next()
+		w := lex.Peek()
+		if w.EOF() || w.Value == "@" {
+			return nil, fmt.Errorf("expected a word after @")
+		}
+		lex.Next()
+		n := c11NoteV{Word: w.Value}
+		if tok, cur := lex.PeekAny(func(t lexer.Token) bool { return t.Type == commentType }); tok.Type == commentType {
+			lex.FastForward(cur) // the trailing comment belongs to the note
+			n.Comment = tok.Value
+		}
+		return n, nil
+	}
+	p, err := participle.Build[c11NoteProg](participle.Lexer(c11NLex), participle.Elide("Whitespace", "Comment"), participle.ParseTypeWith(parseNote))
+	if err != nil {
+		c.Violation("", "notes", "grammar with a ParseTypeWith production does not build: "+err.Error(), nil)
+		return
+	}
+	r := c.RNG("notes")
+	for i := 0; i < c.N(800, 8000); i++ {
+		key := fmt.Sprintf("note%d", i)
+		if !c.Want(key) {
+			continue
+		}
+		type ext struct{ from, start, end int }
+		var sb strings.Builder
+		var want []ext
+		sb.WriteString(r.Pick("", " ", "\n"))
+		from := 0
+		for n := r.Range(1, 4); n > 0; n-- {
+			e := ext{from: from, start: sb.Len()}
+			sb.WriteString("@" + r.Pick("", " ", "\n") + r.Pick("x", "foo", "é"))
+			e.end = sb.Len()
+			if r.Bool() {
+				sb.WriteString(r.Pick("", " ", "  ") + "#" + r.Pick("one", "", " a b"))
+				e.end = sb.Len()
+				sb.WriteString("\n")
+			} else {
+				sb.WriteString(r.Pick(" ", "\n", "  "))
+			}
+			from = e.end
+			want = append(want, e)
+		}
+		in := sb.String()
+		c.Begin(key, fmt.Sprintf("ParseTypeWith production consuming its trailing comment <- %q", in))
+		c.Eval(1)
+		var prog *c11NoteProg
+		var perr error
+		if pn, pv, st := mon.Guard(func() { prog, perr = p.ParseString("", in) }); pn {
+			c.Violation("", key, fmt.Sprintf("parse panicked (%s) at %s | input %q", pv, st, in), nil)
+			c.End(key)
+			continue
+		}
+		report := func(what string) {
+			c.Violation("", key, fmt.Sprintf("%s | grammar: Prog = NoteStmt* ; NoteStmt = Note (ParseTypeWith: \"@\" word, then the trailing comment taken with PeekAny+FastForward) | input %q", what, in), map[string]interface{}{"input": in})
+		}
+		switch {
+		case perr != nil:
+			report("valid input rejected: " + perr.Error())
+		case len(prog.Notes) != len(want):
+			report(fmt.Sprintf("%d notes parsed, %d written", len(prog.Notes), len(want)))
+		default:
+			for si, s := range prog.Notes {
+				w := want[si]
+				if len(s.Tokens) == 0 {
+					report(fmt.Sprintf("note %d: empty token list", si))
+					break
+				}
+				first, last := s.Tokens[0], s.Tokens[len(s.Tokens)-1]
+				if s.Pos.Offset != w.start {
+					report(fmt.Sprintf("note %d: Pos offset %d, its first token is at %d", si, s.Pos.Offset, w.start))
+					break
+				}
+				if s.EndPos.Offset != w.end {
+					report(fmt.Sprintf("note %d: EndPos offset %d, its last consumed token (the trailing comment, if any) ends at %d", si, s.EndPos.Offset, w.end))
+					break
+				}
+				if first.Pos.Offset != w.from || last.Pos.Offset+len(last.Value) != w.end {
+					report(fmt.Sprintf("note %d: token list spans bytes %d..%d, the node started at %d and its last consumed token ends at %d", si, first.Pos.Offset, last.Pos.Offset+len(last.Value), w.from, w.end))
+					break
+				}
+			}
+		}
+		c.Nontrivial("note:" + in)
+		c.Feature("custom_productions_ending_in_an_explicitly_consumed_elided_token")
 		c.End(key)
 	}
 }
